@@ -25,40 +25,47 @@ CHECKS = [
         "incl. extra and late answers and the reply-buffer pool; every transition of that model is then executed on the real server "
         "(transition tour) and the recorded executions are validated against the model by TLC; larger sessions (up to 70 outstanding "
         "requests) under seeded random schedules. Exactly-one/right-tag/right-content is decided by TLA+ monitors over wire bytes and "
-        "the scripted implementation's log.", SRVNOTE, SRVTECH, "srv-family", "DESIGN.md 4.1, 5, 6 C03"),
+        "the scripted implementation's log. Besides uniform random schedules, 'hold' runs delay one request's goroutine at one "
+        "specification action (every hook in turn) until nothing else can happen while the session goes on.", SRVNOTE, SRVTECH, "srv-family", "DESIGN.md 4.1, 5, 6 C03, 12.5"),
 
     chk("C07", "model_checking",
         "Srv9P flush models (target kinds Attach/Stat/Clunk/Walk, with and without FlushOp, thorough: flush of a flush and two flushes "
         "of one request with 3 requests) model-checked for FlushOrder, NoCallAfterCancel, FlushAnswered, CancelLeavesNothing; complete "
         "transition tours of the small flush models replayed on the real server (every interleaving of the flusher's schedule points "
         "with the target's is a path of the graph), executions trace-validated and judged by the TLA+ monitors incl. fid probes after "
-        "the Rflush; flush-heavy seeded random sessions.", SRVNOTE, SRVTECH, "srv-family", "DESIGN.md 4.1, 6 C07"),
+        "the Rflush (is the fid known to requests, is its number free); flush-heavy seeded random sessions, also in 'hold' mode "
+        "(one goroutine delayed at one specification action per case).", SRVNOTE, SRVTECH, "srv-family", "DESIGN.md 4.1, 6 C07, 12.5"),
     chk("C08", "model_checking",
         "Tag-group models (shared tags, 2-3 requests) model-checked for TagGroupFIFO/NoQueuedForever and, under fairness with one request "
         "held for ever, the liveness property Progress; tours replayed on the real server; then every subset of up to 3 (thorough 6) "
         "requests is held inside the scripted implementation while the others, later ones and a request on a second connection must "
-        "complete at exact quiescence (no timeouts), released in every order, Maxpend 0/1/4, with and without shared tags.",
+        "complete at exact quiescence (no timeouts), released in every order, Maxpend 0/1/4, with and without shared tags, one request "
+        "carrying tag 0xFFFF, and with slow (parked) FidDestroy callbacks as further blocked requests.",
         SRVNOTE, SRVTECH + "; held-set engine with exact quiescence", "srv-family", "DESIGN.md 4.1, 6 C08"),
     chk("C11", "model_checking",
         "Srv9P with ClientClose/CloseEnter/CloseDestroy model-checked (disconnect at every point of every interleaving of 2 requests: "
         "ClosedOnce, NoStuckThread, NoCrash); tour of the close model replayed; disconnect with 0..4 requests blocked in the "
         "implementation released afterwards in every order, mid-frame cuts, a bystander connection; ConnClosed/FidDestroy accounting and "
         "leftover goroutines (exact: goroutines still blocked when the synctest bubble ends) judged by the TLA+ monitors.",
-        SRVNOTE + " Two known findings (fids referenced by requests in progress at the disconnect) are listed in known_findings.json.",
-        SRVTECH, "srv-family", "DESIGN.md 4.1, 6 C11"),
+        SRVNOTE + " Disconnects also by oversize/unparsable frames, with FlushOp cancellations, with one goroutine delayed across the "
+        "disconnect ('hold'), and with slow callbacks; a crash after the client has gone is judged here too.",
+        SRVTECH, "srv-family", "DESIGN.md 4.1, 6 C11, 12.5"),
     chk("C04", "model_checking",
         "FidRef.tla is the property as a sequential reference machine (fid table x request x implementation outcome -> reply class, calls "
         "forwarded, fids destroyed). Its full state graph is covered by a transition tour (every (table state, request, outcome) edge; "
         "quick: a seeded sample), each history executed on the real server with a scripted implementation, one and two connections, both "
-        "dialects, with and without AuthOps; TLC validates every observed reply/forwarding/destruction against FidRef!Step.",
+        "dialects, with and without AuthOps; TLC validates every observed reply/forwarding/destruction against FidRef!Step. The same "
+        "histories are repeated with an implementation that is slow in SrvReqRespond (a reply that leaves before the post-processing "
+        "shows). Destruction-before-reply and exactly-once across disconnects: gated sessions with slow callbacks, judged by Mon9P.",
         "Trusted base: TLC, the reading of the property encoded in FidRef (only 'unknown fid' and 'fid already in use' are compared "
-        "literally), harness/wire. Sequential histories only.",
+        "literally), harness/wire. Table rules on sequential histories; ordering clauses on gated concurrent sessions.",
         "TLA+ reference machine + TLC transition tour executed on the real server + TLC trace validation of the observations",
         "fid-family", "DESIGN.md 4.2, 6 C04"),
     chk("C05", "model_checking",
         "Same machine and engine as C04: the product (fid state) x (request, mode, perm class, count class incl. 2^31 and 2^32-24..2^32-1) is "
         "the edge set of the FidRef graph, covered by the tour; refusal-before-forwarding, exactly-once forwarding with fid/user, effects "
-        "visible to the next request, and AuthCheck-before-Attach are validated by TLC on the observations of the real server.",
+        "visible to the next request (also with the implementation slow in SrvReqRespond), and AuthCheck-before-Attach are validated by "
+        "TLC on the observations of the real server; one perm class per special-file bit.",
         "Trusted base as C04. Requests on which the property is silent are not generated (listed in the spec header).",
         "TLA+ reference machine + TLC transition tour executed on the real server + TLC trace validation of the observations",
         "fid-family", "DESIGN.md 4.2, 6 C05"),
@@ -152,7 +159,8 @@ CHECKS += [
         "reply buffers, and announced frame sizes; FrameWithinMsize/MsizeOnlyShrinks/DialectNeedsBoth are model-checked. The grid of server "
         "msize x client msize (24..2^32-1 incl. equal, +-1) x server dialect x version string is executed on the real server; every later "
         "reply frame (large Rstat, 16-qid Rwalk, long Rerror, reads up to the limit) and every announced size 0..2^32-1 is one line that TLC "
-        "validates against Nego (NegoTrace); the client's Connect is run against a scripted peer and validated the same way.",
+        "validates against Nego (NegoTrace), incl. a Tread held inside the implementation across a second Tversion that lowers the msize; "
+        "the client's Connect is run against a scripted peer and validated the same way.",
         "Trusted base: TLC, harness/wire (dialect of Rerror/Rstat is told by strict decoding in both dialects). Sizes >= 2^31 are clamped in "
         "the TLA+ trace.",
         "TLA+/TLC model checking + grid execution on the real server/client + TLC trace validation of every observed frame",
@@ -162,7 +170,10 @@ CHECKS += [
         "reference machine FidRef (incl. NOFID, stale and reused fids, counts up to 2^32-1) is executed on the real server; every Wire9P "
         "mutation vector is sent as a frame, plus seeded adversarial sessions (every message type with boundary values, names with '/', "
         "'..', empty and long names, msize from 24), byte-mutated sessions and random bytes, against the scripted implementation and the "
-        "Unix file server; after each case a fresh connection and a bystander connection must still be served.",
+        "Unix file server, plus structured boundary-grid sessions (counts x offsets x fid states after an optional second Tversion) and "
+        "msize-ladder sessions (pipelined bursts after repeated Tversions); UfsData!WindowSafe is model-checked for every offset and the "
+        "off-rule directory reads of its graph are executed on real directories; after each case a fresh connection and a bystander "
+        "connection must still be served.",
         "Trusted base: process-level observation (a panic kills the test binary; the driver attributes it to the case in progress). The "
         "generation of hostile values is seeded Go code, not TLA+.",
         "TLC model checking of NoCrash + spec-derived hostile inputs (FidRef tour, Wire9P mutation vectors) + seeded adversarial sessions "
